@@ -432,13 +432,19 @@ fn partial_fold(op: BinOperator, kind: u8, which: u8, const_on_right: bool, as_l
         Err(e) => assert!(same_result(&Err(e), &want)),
     }
 }
+/// the `*cell` form of the non-constant operand with every constant choice; the local-variable form
+/// with the first and last choice of each kind (0 / 0.0 / false and 63 or MIN_INT / NaN / true)
 fn pfold_right(op: BinOperator, kind: u8, which: u8) {
     partial_fold(op, kind, which, true, false);
-    partial_fold(op, kind, which, true, true);
+    if which == 0 || which == 3 || (kind == 2 && which == 1) {
+        partial_fold(op, kind, which, true, true);
+    }
 }
 fn pfold_left(op: BinOperator, kind: u8, which: u8) {
     partial_fold(op, kind, which, false, false);
-    partial_fold(op, kind, which, false, true);
+    if which == 0 || which == 3 || (kind == 2 && which == 1) {
+        partial_fold(op, kind, which, false, true);
+    }
 }
 
 stubbed! { pub fn t_fold_right_a() { each_const!(pfold_right; Add, Subtract, Multiply); kani::cover!(true); } }
